@@ -385,6 +385,26 @@ def run(R, replay=None):
         shutil.rmtree(repo, ignore_errors=True)
         shutil.rmtree(tmpd, ignore_errors=True)
     # ---- files git does not track survive the two hard resets (or the tool refuses to start)
+    def repo_with_merge_head(d):
+        """HEAD is a merge commit; local_settings.py is tracked by the merged-in branch (second parent) only, the merge dropped it
+        from the index and the developer's copy stays in the working tree as an untracked file."""
+        os.makedirs(d)
+        git(d, "init", "-q", "-b", "work")
+        open(os.path.join(d, "a.py"), "w").write("assert x\n")
+        git(d, "add", ".")
+        git(d, "commit", "-q", "-m", "one")
+        git(d, "checkout", "-q", "-b", "side")
+        open(os.path.join(d, "local_settings.py"), "w").write("zz_secret = 'from the side branch'\n")
+        git(d, "add", ".")
+        git(d, "commit", "-q", "-m", "side")
+        git(d, "checkout", "-q", "work")
+        open(os.path.join(d, "b.py"), "w").write("x = 1\n")
+        git(d, "add", ".")
+        git(d, "commit", "-q", "-m", "two")
+        git(d, "merge", "-q", "--no-ff", "--no-commit", "side")
+        git(d, "rm", "-q", "--cached", "local_settings.py")
+        git(d, "commit", "-q", "-m", "merge side, settings stay local")
+
     def repo_with_removed_file(d):
         os.makedirs(d)
         git(d, "init", "-q", "-b", "work")
@@ -392,12 +412,13 @@ def run(R, replay=None):
         open(os.path.join(d, "old.py"), "w").write("import pickle\n")
         os.makedirs(os.path.join(d, "legacy"))
         open(os.path.join(d, "legacy", "mod.py"), "w").write("import marshal\n")
+        open(os.path.join(d, "donn\u00e9es client.py"), "w").write("import dill\n")       # a name git quotes in its plain listings
         git(d, "add", ".")
         git(d, "commit", "-q", "-m", "one")
         open(os.path.join(d, "moved_from.py"), "w").write("import shelve\nzz_keep = 'a file long enough for git to recognise it after a rename'\n" * 3)
         git(d, "add", ".")
         git(d, "commit", "-q", "--amend", "-m", "one")
-        git(d, "rm", "-q", "-r", "old.py", "legacy")
+        git(d, "rm", "-q", "-r", "old.py", "legacy", "donn\u00e9es client.py")
         git(d, "mv", "moved_from.py", "moved_to.py")      # the parent tracks moved_from.py, the current commit has it under another name
         open(os.path.join(d, "b.py"), "w").write("x = 1\n")
         git(d, "add", ".")
@@ -406,10 +427,12 @@ def run(R, replay=None):
                               ("ignored-file", "notes.log", True), ("ignored-file-tracked-in-parent", "old.py", True),
                               ("untracked-directory-tracked-in-parent", "legacy/mod.py", False), ("untracked-directory", "scratchdir/x.txt", False),
                               ("untracked-file-at-the-old-name-of-a-renamed-file", "moved_from.py", False),
-                              ("ignored-file-at-the-old-name-of-a-renamed-file", "moved_from.py", True)):
+                              ("ignored-file-at-the-old-name-of-a-renamed-file", "moved_from.py", True),
+                              ("untracked-file-with-a-quoted-name-tracked-in-parent", "donn\u00e9es client.py", False),
+                              ("untracked-file-only-the-second-parent-of-a-merge-tracks", "local_settings.py", False)):
         k += 1
         repo = os.path.join(base, "u%d" % k)
-        repo_with_removed_file(repo)
+        (repo_with_merge_head if "merge" in name else repo_with_removed_file)(repo)
         if ignored:
             open(os.path.join(repo, ".git", "info", "exclude"), "a").write(fn + "\n")
         os.makedirs(os.path.dirname(os.path.join(repo, fn)), exist_ok=True)
